@@ -34,6 +34,22 @@ ASSUMPTIONS = [
 _picks = st.lists(st.integers(0, 719), min_size=1, max_size=6)
 
 
+def fragile_ratio(r: float) -> float:
+    """a ratio < 1 near r (or 1/r) whose reciprocal does not round-trip (1/(1/x) != x; about 37 % of the doubles in
+    [0.8, 1), none in [1, 2)): a grading copied through an anti-aligned block and back then differs in the last digit
+    from one copied directly, which makes any dependence on the copy path visible in the written text"""
+    import math
+
+    x = min(r, 1.0 / r)
+    if x >= 1.0:
+        x = 0.9
+    for _ in range(400):
+        if 1.0 / (1.0 / x) != x:
+            return x
+        x = math.nextafter(x, 0.0)
+    return x
+
+
 def fuel_limit(nblocks: int) -> int:
     return 20_000 + 40_000 * nblocks
 
@@ -368,7 +384,7 @@ def any_case(draw, mixed: bool):
         if not members and draw(st.integers(0, 5)) > 0:
             members = [draw(st.sampled_from(fam))]
         n = draw(st.integers(1, 8))
-        r = draw(st.floats(0.8, 1.25))
+        r = fragile_ratio(draw(st.floats(0.8, 1.25)))
         for m in members:
             if mixed:
                 args = {"count": draw(st.sampled_from([n, n, n + 1])), "c2c_expansion": draw(st.sampled_from([1.0, r, 1.1]))}
@@ -382,11 +398,52 @@ def any_case(draw, mixed: bool):
 
 
 @st.composite
+def corner_sources_case(draw):
+    """Three blocks round a corner: B touches A on one side and D on another; A and D carry the same chop in the
+    direction of the corner edge, B has one edge in that direction that belongs to neither - its grading is taken
+    from whichever neighbour the library looks at first."""
+    dims = [2, 2, 1]
+    perm = draw(st.permutations([0, 1, 2]))
+    pdims = [dims[perm[a]] for a in range(3)]
+    inv = [perm.index(a) for a in range(3)]
+
+    def idx(i, j, k=0):
+        c = [i, j, k]
+        q = [c[perm[a]] for a in range(3)]
+        return q[0] + pdims[0] * (q[1] + pdims[1] * q[2])
+
+    a_cell, b_cell, d_cell = idx(0, 0), idx(1, 0), idx(1, 1)
+    shared_dir = inv[2]  # the direction of the corner edge in the permuted lattice
+    cells = draw(st.permutations([a_cell, b_cell, d_cell]))
+    case = {
+        "dims": pdims, "widths": [[1.0] * pdims[a] for a in range(3)], "jitter": [], "cells": list(cells),
+        "orient": [draw(st.integers(0, 23)) for _ in cells], "chops": [],
+    }
+    fams, _ = lt.lattice_families(case)
+    n = draw(st.integers(2, 8))
+    r = fragile_ratio(draw(st.floats(0.8, 1.25)))
+    chops = []
+    for fam in fams:
+        if (a_cell, shared_dir) in fam:
+            chops.append({"cell": a_cell, "gdir": shared_dir, "args": {"count": n, "c2c_expansion": r}})
+            chops.append({"cell": d_cell, "gdir": shared_dir, "args": {"count": n, "c2c_expansion": r}})
+        else:
+            c, d = draw(st.sampled_from(fam))
+            chops.append({"cell": c, "gdir": d, "args": {"count": draw(st.integers(1, 6))}})
+    case["chops"] = chops
+    case["mode"] = "corner-sources"
+    case["schedules"] = [draw(_picks) for _ in range(3)]
+    return case
+
+
+@st.composite
 def two_sources_case(draw):
-    """A row of 4-6 blocks whose two END blocks are chopped across the row with the same count but different
+    """A row of 3-6 blocks whose two END blocks are chopped across the row with the same count but different
     expansions: the un-chopped blocks in between have edges that can be graded from either end, so the written file
     depends on the order in which they are visited - which must be a function of the script."""
-    k = draw(st.integers(4, 6))
+    if draw(st.booleans()):
+        return draw(corner_sources_case())
+    k = draw(st.integers(3, 6))
     dims = [k, 1, 1]
     perm = draw(st.permutations([0, 1, 2]))
     dims = [dims[perm[a]] for a in range(3)]
@@ -402,8 +459,14 @@ def two_sources_case(draw):
     chops = []
     for fam in fams:
         if (0, shared_dir) in fam:
-            chops.append({"cell": 0, "gdir": shared_dir, "args": {"count": n, "c2c_expansion": 1.0}})
-            chops.append({"cell": k - 1, "gdir": shared_dir, "args": {"count": n, "c2c_expansion": draw(st.sampled_from([1.1, 1.2, 0.9]))}})
+            if draw(st.integers(0, 2)) == 0:
+                # the same specification at both ends: any path of copies must give the same text
+                r = fragile_ratio(draw(st.floats(0.8, 1.25)))
+                chops.append({"cell": 0, "gdir": shared_dir, "args": {"count": n, "c2c_expansion": r}})
+                chops.append({"cell": k - 1, "gdir": shared_dir, "args": {"count": n, "c2c_expansion": r}})
+            else:
+                chops.append({"cell": 0, "gdir": shared_dir, "args": {"count": n, "c2c_expansion": 1.0}})
+                chops.append({"cell": k - 1, "gdir": shared_dir, "args": {"count": n, "c2c_expansion": draw(st.sampled_from([1.1, 1.2, 0.9]))}})
         else:
             c, d = draw(st.sampled_from(fam))
             chops.append({"cell": c, "gdir": d, "args": {"count": draw(st.integers(1, 6))}})
@@ -506,8 +569,8 @@ CELLS = [
     Cell("C02/determinism/uniform", any_case(False), check_determinism, 120, 5000,
          "arbitrary chop placement (possibly redundant / under-specified), one specification per family, 3 schedules: "
          "same outcome class and byte-identical file"),
-    Cell("C02/determinism/two-sources", two_sources_case(), check_determinism, 100, 4000,
-         "row of 4-6 blocks, both ends chopped with the same count and different expansions, drawn insertion order and "
+    Cell("C02/determinism/two-sources", two_sources_case(), check_determinism, 160, 5000,
+         "row of 3-6 blocks, both ends chopped with the same count and the same or different expansions, drawn insertion order and "
          "numbering; 6 builds with shifted allocator and 3 schedules: same outcome class and byte-identical file"),
     Cell("C02/determinism/mixed", any_case(True), check_determinism, 120, 5000,
          "as uniform but members of a family may carry different counts / expansions, 3 schedules"),
